@@ -37,18 +37,17 @@ def split_name_index(node_name: str) -> typing.Tuple[
                 else:
                     raise SyntaxError(f"Not expected condition in index [{node_index_str}]")
 
-                expected_value_bool = False  # Default value, in real None was used, but mypy raised error
+                # Only true()/false() give a bool, any other expected value (the empty one too) stays text
+                expected_value_bool: typing.Optional[bool] = None
                 if expected_value.lower() == "true()":
-                    expected_value = ""
                     expected_value_bool = True
                 elif expected_value.lower() == "false()":
-                    expected_value = ""
                     expected_value_bool = False
                 elif (expected_value.startswith('"') and expected_value.endswith('"')) or \
                         (expected_value.startswith("'") and expected_value.endswith("'")):
                     expected_value = expected_value[1:-1]
                     expected_value = urllib__parse__unquote(expected_value)
-                node_index_tuple = (expected_node_name, delimiter, expected_value or expected_value_bool)
+                node_index_tuple = (expected_node_name, delimiter, expected_value if expected_value_bool is None else expected_value_bool)
     else:
         node_index_str = None
     return node_name, (node_index_tuple if node_index_tuple is not None else node_index_str)
